@@ -129,14 +129,14 @@ Definition s_sw : st := snd (swap 0 1 (Some al_gc) s_gc).
 Example C07_reach_clause_refuted :
   refc s_gc !! 7%positive = Some 1 ∧ indeg (succ s_gc) 7%positive = 0 ∧
   reach (succ s_gc) (fun k => k = 7%positive) 6%positive ∧
-  (∃ al', fst (swap 0 1 (Some al_gc) s_gc) = Ok ((4, 4), al')) ∧
+  match fst (swap 0 1 (Some al_gc) s_gc) with Ok (sz, _) => sz = (4, 4) | Err _ => False end ∧
   succ s_sw !! 6%positive = None ∧
   succ s_sw !! 7%positive = Some (Triple 0 4 2).
 Proof.
   split; [by vm_compute|]. split; [by vm_compute|]. split.
   - change 6%positive with (absn (t_hi (Triple 0 4 6))).
     apply (reach_hi _ _ 7%positive); [|by vm_compute|done].
-    apply reach_root; [done|]. apply elem_of_dom. exists (Triple 0 4 6). by vm_compute.
-  - split; [|split; by vm_compute].
-    eexists. vm_compute. reflexivity.
+    apply reach_root; [done|].
+    apply (proj2 (elem_of_dom (succ s_gc) 7%positive)). exists (Triple 0 4 6). by vm_compute.
+  - split; [|split]; by vm_compute.
 Qed.
